@@ -32,11 +32,8 @@ type c18env struct {
 func c18keys() (keys [c18Pool][]byte) {
 	lens := []int{1, 2, 1}
 	if vTier() == "thorough" {
-		switch vChoice("lens", 3) {
-		case 1:
+		if vChoice("lens", 2) == 1 {
 			lens = []int{2, 2, 2}
-		case 2:
-			lens = []int{1, 1, 2}
 		}
 	}
 	var ks [][]byte
@@ -218,8 +215,22 @@ func C18_PrefixDB() {
 		outV = append(outV, []byte{0xEE})
 		base.put(prefix, []byte{0xEE})
 	}
-	e := &c18env{db: NewPrefixDB(base, prefix), keys: c18keys()}
+	// the slice handed to NewPrefixDB may have spare capacity (a prefix cut from a longer buffer):
+	// the view must neither depend on it nor write into it
+	given := make([]byte, plen, plen+8*vChoice("spare", 2))
+	copy(given, prefix)
+	e := &c18env{db: NewPrefixDB(base, given), keys: c18keys()}
+	// initial contents of the view, written straight into the base store: none, or all three pool keys
+	// (thorough tier: programs of two steps populate the view themselves)
+	if vTier() != "thorough" && vChoice("populated", 2) == 1 {
+		for i := 0; i < c18Pool; i++ {
+			v := vBytes("iv", 1)
+			base.put(append(append([]byte{}, prefix...), e.keys[i]...), v)
+			e.m.present[i], e.m.vals[i] = true, v
+		}
+	}
 	e.run(c18ops() - 1)
+	vAssert(len(given) == plen && vConcreteBool(vEqBytes(given, prefix)), "prefix:callers-prefix-slice-modified")
 	// outside keys untouched, and the base holds exactly outside keys + prefixed model keys
 	want := 0
 	for i := 0; i < c18Pool; i++ {
@@ -290,10 +301,10 @@ func (s *c18ldbIter) Prev() bool {
 	}
 	return s.Valid()
 }
-func (s *c18ldbIter) Valid() bool                  { return !s.released && s.pos >= 0 && s.pos < len(s.keys) }
-func (s *c18ldbIter) Error() error                 { return nil }
-func (s *c18ldbIter) Release()                     { s.released = true }
-func (s *c18ldbIter) SetReleaser(r util.Releaser)  {}
+func (s *c18ldbIter) Valid() bool                 { return !s.released && s.pos >= 0 && s.pos < len(s.keys) }
+func (s *c18ldbIter) Error() error                { return nil }
+func (s *c18ldbIter) Release()                    { s.released = true }
+func (s *c18ldbIter) SetReleaser(r util.Releaser) {}
 func (s *c18ldbIter) Key() []byte {
 	if !s.Valid() {
 		return nil
